@@ -54,7 +54,17 @@ def table(n, seed):
         "k1": r.randint(0, 5, n), "k2": r.randint(0, 3, n), "k3": pd.array(r.choice(["a", "b", "c"], n), dtype="str"),
         "x": r.randint(0, 20, n) / 2.0, "y": r.randint(0, 50, n), "u": r.permutation(n), "rid": np.arange(n),
         "ks": np.arange(n) // 3,  # ordered across partitions, runs of equal keys straddle the partition borders (presorted fast path)
-    }, index=pd.Index(np.arange(n), name="ix"))
+    }, index=pd.Index(np.arange(n), name="ix")).assign(**_null_cols(n, seed))
+
+
+def _null_cols(n, seed):
+    # key columns with missing values (drawn from a separate stream so the other columns stay as they were)
+    r = np.random.RandomState(seed + 7)
+    kn = r.randint(0, 4, n).astype("float64")
+    kn[r.rand(n) < 0.25] = np.nan
+    sn = np.array(r.choice(["p", "q", "r"], n), dtype=object)
+    sn[r.rand(n) < 0.25] = None
+    return {"kn": kn, "sn": pd.array(sn, dtype="str")}
 
 
 def right_table(n, seed):
@@ -88,6 +98,26 @@ def grid():
                         if method == "disk" and so in (None, 1):
                             continue
                         cells.append({"fam": fam, "np": npart, "split_every": se, "split_out": so, "method": method})
+        for col in ("kn", "sn"):
+            for norm in (False, True):
+                for dropna in (True, False):
+                    for so in SO:
+                        for method in ("tasks", "disk"):
+                            if method == "disk" and so in (None, 1):
+                                continue
+                            cells.append({"fam": "value_counts_null", "col": col, "normalize": norm, "dropna": dropna, "np": npart, "split_every": None, "split_out": so, "method": method})
+            for fn in ("sum", "count", "nunique"):
+                for dropna in (True, False):
+                    for so in (None, 1, 2, True):
+                        cells.append({"fam": "groupby_nullkey", "col": col, "fn": fn, "dropna": dropna, "np": npart, "split_every": None, "split_out": so, "method": "tasks"})
+            for so in (None, 1, 2, True):
+                for fam in ("nunique_null", "unique_null", "drop_duplicates_null"):
+                    cells.append({"fam": fam, "col": col, "np": npart, "split_every": None, "split_out": so, "method": "tasks"})
+        for nap in ("first", "last"):
+            for asc in (True, False):
+                for hint in (None, 1, 3):
+                    for method in ("tasks", "disk"):
+                        cells.append({"fam": "sort_values_null", "na_position": nap, "ascending": asc, "np": npart, "npartitions": hint, "method": method})
         for how in ("inner", "left", "right", "outer", "leftsemi"):
             for nr in (1, 2, 5, 9):
                 for bc in (None, True, False, 0.1, 0.9):
@@ -156,6 +186,23 @@ def build(case, knobs=True):
         return d.k1.value_counts(**kw("split_every", "split_out")), pdf.k1.value_counts(), 0, 1
     if fam == "value_counts_norm":
         return d.k1.value_counts(normalize=True, **kw("split_every", "split_out")), pdf.k1.value_counts(normalize=True), 0, 1
+    if fam == "value_counts_null":
+        c = case["col"]
+        return (d[c].value_counts(normalize=case["normalize"], dropna=case["dropna"], **kw("split_every", "split_out")),
+                pdf[c].value_counts(normalize=case["normalize"], dropna=case["dropna"]), 0, 1)
+    if fam == "groupby_nullkey":
+        c, fn = case["col"], case["fn"]
+        return (getattr(d.groupby(c, dropna=case["dropna"]).y, fn)(**kw("split_every", "split_out")), getattr(pdf.groupby(c, dropna=case["dropna"]).y, fn)(), 0, 1)
+    if fam == "nunique_null":
+        return d[case["col"]].nunique(**kw("split_every", "split_out")), pdf[case["col"]].nunique(), 1, 1
+    if fam == "unique_null":
+        return d[case["col"]].unique(**kw("split_every", "split_out")), pd.Series(pdf[case["col"]].unique(), name=case["col"]), 0, 0
+    if fam == "drop_duplicates_null":
+        return d[[case["col"], "k2"]].drop_duplicates(**kw("split_every", "split_out")), pdf[[case["col"], "k2"]].drop_duplicates(), 0, 0
+    if fam == "sort_values_null":
+        # na_position / ascending are part of the query, the npartitions hint is the knob
+        q = d.sort_values(["kn", "u"], na_position=case["na_position"], ascending=case["ascending"], **kw("npartitions"))
+        return q, pdf.sort_values(["kn", "u"], na_position=case["na_position"], ascending=case["ascending"]), 1, 1
     if fam == "merge":
         rt = right_table(12, 5)
         r = dx.from_pandas(rt, npartitions=case["nr"], sort=False)
